@@ -4,12 +4,13 @@
    spans for mixed content, zero-duration pruning, <set> — and of the walk
    TTElement.from_xml -> HeadElement -> LayoutElement -> RegionElement / BodyElement, on the
    ElementTree structure of Base/ImscXml.v.  Statement order follows the code; Python exceptions
-   that leave to_model are explicit outcomes (PErr 1 = TypeError from None - Fraction in a seq
-   container, PErr 2 = ZeroDivisionError from a zero frame / tick rate).
+   that would leave process are explicit outcomes (PErr 1 = TypeError from None + Fraction when process is
+   entered under a seq parent whose last child never ends - the children loop never does that, it stops
+   at such a child; PErr 2 = ZeroDivisionError from a zero frame / tick rate - the parameter readers never
+   return one).
    Styling (nested styles of regions, referential and specified styling, <set>) is applied at the
    points where the code applies it, with the functions of Model/ImscStyles.v; reading a style value
-   and the model's validity test are functions of the environment (PErr 5 = ValueError from set_style
-   during referential or nested styling).
+   and the model's validity test are functions of the environment.
    Not modelled: log records; children of br / set / region elements other than region/style and
    region/set (never valid TTML) inherit the language of the grandparent. *)
 From TT Require Import Base.Prelude Base.ImscXml Model.ImscTime Model.ImscStyles.
@@ -34,12 +35,13 @@ Definition classify (tag : qname) (attrs : list (qname * text)) : option ekind :
     match get_attr attrs A_ruby with
     | None => Some KSpan
     | Some v =>
+        (* get_ruby_attr: a value that is not one of the six keywords is logged and read as absent *)
         if text_eqb v V_container then Some KRuby else
         if text_eqb v V_base then Some KRb else
         if text_eqb v V_text then Some KRt else
         if text_eqb v V_delimiter then Some KRp else
         if text_eqb v V_baseContainer then Some KRbc else
-        if text_eqb v V_textContainer then Some KRtc else None
+        if text_eqb v V_textContainer then Some KRtc else Some KSpan
     end
   else
   if qname_eqb tag T_br then Some KBr else
@@ -47,7 +49,7 @@ Definition classify (tag : qname) (attrs : list (qname * text)) : option ekind :
   if qname_eqb tag T_region then Some KRegion else None.
 
 Record env := mkEnv {
-  e_tr : Z ;                                        (* temporal_context.tick_rate *)
+  e_tr : Q ;                                        (* temporal_context.tick_rate *)
   e_fr : Q ;                                        (* temporal_context.frame_rate *)
   e_regions : list text ;                           (* ids registered in the document so far *)
   e_to_model : qname -> text -> option (Z * sv) ;   (* StyleProperty.to_model; None: not a style attribute, or ValueError / KeyError *)
@@ -58,8 +60,8 @@ Record env := mkEnv {
 (* what a child reads from its parent's parsing context *)
 Record pctx := mkPctx {
   pc_par : bool ;                (* parent time container is par *)
-  pc_impl_end : option Q ;       (* parent's implicit_end at this point of its children loop *)
-  pc_des_begin : Q ;             (* parent's desired_begin *)
+  pc_seq_end : option Q ;        (* parent's seq_end at this point of its children loop: the end of the previous child relative to
+                                    the parent's begin, None if it never ends *)
   pc_preserve : bool ;           (* parent's xml:space *)
   pc_lang : text ;               (* parent's xml:lang *)
   pc_has_elem : bool             (* parent context carries a model element (it is not a <set>) *)
@@ -145,7 +147,7 @@ Definition opt_or_zero (o : option Q) : Q := match o with Some q => q | None => 
 Definition is_style_elem (c : xml) : bool := qname_eqb (x_tag c) T_style.
 
 (* state of the children loop *)
-Inductive lres := LErr (code : Z) | LDone (iend : option Q) (kids : list mnode) (anims : list anim) (pf : bool) (nst : sdict).
+Inductive lres := LDone (iend : option Q) (kids : list mnode) (anims : list anim) (pf : bool) (nst : sdict) | LErr (code : Z).
 
 (* the children loop of process, for a parent of class k whose children are read by [proc] *)
 Section Children.
@@ -154,26 +156,26 @@ Section Children.
   Variable valid : Z -> sv -> bool.
   Variables (k : ekind) (par : bool) (dbegin : Q) (preserve : bool) (lang : text).
 
-  (* [nst]: the styles of the model element so far (only nested styling can have set any) *)
-  Fixpoint children_loop (l : list xml) (iend : option Q) (kids : list mnode) (anims : list anim) (pf : bool) (nst : sdict)
+  (* [iend]: implicit_end; [send]: seq_end; [nst]: the styles of the model element so far (only nested styling can have set any) *)
+  Fixpoint children_loop (l : list xml) (iend send : option Q) (kids : list mnode) (anims : list anim) (pf : bool) (nst : sdict)
                          {struct l} : lres :=
     match l with
     | [] => LDone iend kids anims pf nst
     | c :: l' =>
         (* nested styling of a region: merged set-if-absent, no part in temporal processing (`continue`) *)
         if ekind_eqb k KRegion && is_style_elem c then
-          match merge_absent valid (collect to_model (x_attrs c) []) nst with
-          | Some nst' => children_loop l' iend kids anims pf nst'
-          | None => LErr 5
-          end
+          children_loop l' iend send kids anims pf (merge_absent valid (collect to_model valid (x_attrs c) []) nst)
         else
-        match proc (mkPctx par iend dbegin preserve lang (negb (ekind_eqb k KSet))) c with
+        (* the previous child of a sequential container never ends: the remaining children never begin (`break`) *)
+        if negb par && match send with None => true | Some _ => false end then LDone iend kids anims pf nst
+        else
+        match proc (mkPctx par send preserve lang (negb (ekind_eqb k KSet))) c with
         | PErr e => LErr e
         | PSkip =>
             match x_tail c with
-            | Some t => if k_is_mixed k && par then children_loop l' None (kids ++ [anon_span k preserve lang t]) anims pf nst
-                        else children_loop l' iend kids anims pf nst
-            | None => children_loop l' iend kids anims pf nst
+            | Some t => if k_is_mixed k && par then children_loop l' None send (kids ++ [anon_span k preserve lang t]) anims pf nst
+                        else children_loop l' iend send kids anims pf nst
+            | None => children_loop l' iend send kids anims pf nst
             end
         | POk r =>
             let iend' :=
@@ -183,7 +185,12 @@ Section Children.
                 | _, _ => None
                 end
               else
-                match r_des_end r with Some ce => Some (ce + dbegin)%Q | None => None end in
+                (* br, region and set elements keep their indefinite duration in parallel time containers *)
+                match iend with
+                | Some _ => match r_des_end r with Some ce => Some (ce + dbegin)%Q | None => None end
+                | None => None
+                end in
+            let send' := if par then send else r_des_end r in
             (* skip child if it has no temporal extent *)
             let keep :=
               negb (ekind_eqb (r_kind r) KSet) &&
@@ -195,9 +202,9 @@ Section Children.
             let anims' := match r_anim r with Some a => anims ++ [a] | None => anims end in
             match x_tail c with
             | Some t => if k_is_mixed k && par
-                        then children_loop l' None (kids' ++ [anon_span k preserve lang t]) anims' (pf || r_pushfail r) nst
-                        else children_loop l' iend' kids' anims' (pf || r_pushfail r) nst
-            | None => children_loop l' iend' kids' anims' (pf || r_pushfail r) nst
+                        then children_loop l' None send' (kids' ++ [anon_span k preserve lang t]) anims' (pf || r_pushfail r) nst
+                        else children_loop l' iend' send' kids' anims' (pf || r_pushfail r) nst
+            | None => children_loop l' iend' send' kids' anims' (pf || r_pushfail r) nst
             end
         end
     end.
@@ -226,13 +233,9 @@ Definition read_par (attrs : list (qname * text)) : bool :=
   | None => true
   end.
 
-(* implicit begin: 0 in a par parent, else parent.implicit_end - parent.desired_begin (TypeError when it is None) *)
+(* implicit begin: 0 in a par parent, else parent.seq_end (None + Fraction raises TypeError when it is None) *)
 Definition implicit_begin (pc : pctx) : option Q :=
-  if pc_par pc then Some 0%Q
-  else match pc_impl_end pc with
-       | None => None
-       | Some ie => Some (ie - pc_des_begin pc)%Q
-       end.
+  if pc_par pc then Some 0%Q else pc_seq_end pc.
 
 Fixpoint process (ev : env) (pc : pctx) (x : xml) {struct x} : pres :=
   match x with
@@ -264,13 +267,11 @@ Fixpoint process (ev : env) (pc : pctx) (x : xml) {struct x} : pres :=
         (* process text nodes *)
         let kids0 := match txt with Some t => if mixed then [anon_span k preserve lang t] else [] | None => [] end in
         let iend1 := match txt with Some t => if mixed then None else iend0 | None => iend0 end in
-        match children_loop (process ev) (e_to_model ev) (e_valid ev) k par dbegin preserve lang cs iend1 kids0 [] false [] with
+        match children_loop (process ev) (e_to_model ev) (e_valid ev) k par dbegin preserve lang cs iend1 (Some 0%Q) kids0 [] false [] with
         | LErr e => PErr e
         | LDone iend kids anims pf nst =>
             (* referential styling last among the inherited sources: it has the lowest priority (set-if-absent) *)
-            match (if k_has_styles k then referential (e_valid ev) (e_styles ev) (rev (style_refs attrs)) nst else Some nst) with
-            | None => PErr 5
-            | Some st1 =>
+            let st1 := if k_has_styles k then referential (e_valid ev) (e_styles ev) (rev (style_refs attrs)) nst else nst in
             let '(pushed, ok) := if k_has_children k then push_children k kids else ([], true) in
             let rid := if ekind_eqb k KRegion then get_attr attrs A_id else None in
             if negb ok then
@@ -294,7 +295,6 @@ Fixpoint process (ev : env) (pc : pctx) (x : xml) {struct x} : pres :=
               (* specified styling overwrites *)
               let st2 := if k_has_styles k then apply_specified (e_to_model ev) (e_valid ev) attrs st1 else st1 in
               POk (mkCres k dbegin dend (Some (MElem k rid mb me preserve lang region st2 anims pushed)) None pf)
-            end
         end
       end end end end
     end
@@ -312,7 +312,7 @@ Fixpoint read_layout (ev : env) (preserve : bool) (lang : text) (l : list xml) (
   | [] => inl acc
   | c :: l' =>
       if qname_eqb (x_tag c) T_region then
-        match process ev (mkPctx true None 0%Q preserve lang true) c with
+        match process ev (mkPctx true (Some 0%Q) preserve lang true) c with
         | PErr e => inr e
         | POk r => match r_node r with
                    | Some n => read_layout ev preserve lang l' (acc ++ [n])
@@ -326,7 +326,7 @@ Fixpoint read_layout (ev : env) (preserve : bool) (lang : text) (l : list xml) (
 (* HeadElement.from_xml: children in document order; the first layout and the first styling only.  Regions read before
    the styling element see an empty style table. *)
 Record hstate := mkH { h_layout : bool ; h_styling : bool ; h_regions : list mnode ; h_styles : list sty ; h_initials : sdict }.
-Fixpoint read_head (tr : Z) (fr : Q) (tm : qname -> text -> option (Z * sv)) (vl : Z -> sv -> bool)
+Fixpoint read_head (tr : Q) (fr : Q) (tm : qname -> text -> option (Z * sv)) (vl : Z -> sv -> bool)
                    (preserve : bool) (lang : text) (l : list xml) (h : hstate) : hstate + Z :=
   match l with
   | [] => inl h
@@ -347,7 +347,7 @@ Fixpoint read_head (tr : Z) (fr : Q) (tm : qname -> text -> option (Z * sv)) (vl
   end.
 
 (* TTElement.from_xml: children in document order; first body and first head only *)
-Fixpoint read_tt_children (tr : Z) (fr : Q) (tm : qname -> text -> option (Z * sv)) (vl : Z -> sv -> bool)
+Fixpoint read_tt_children (tr : Q) (fr : Q) (tm : qname -> text -> option (Z * sv)) (vl : Z -> sv -> bool)
                           (preserve : bool) (lang : text) (l : list xml)
                           (has_body has_head : bool) (h : hstate) (body : option mnode) : dres :=
   match l with
@@ -356,7 +356,7 @@ Fixpoint read_tt_children (tr : Z) (fr : Q) (tm : qname -> text -> option (Z * s
       if qname_eqb (x_tag c) T_body then
         if has_body then read_tt_children tr fr tm vl preserve lang l' has_body has_head h body
         else
-          match process (mkEnv tr fr (List.map region_id (h_regions h)) tm vl (h_styles h)) (mkPctx true None 0%Q preserve lang true) c with
+          match process (mkEnv tr fr (List.map region_id (h_regions h)) tm vl (h_styles h)) (mkPctx true (Some 0%Q) preserve lang true) c with
           | PErr e => DErr e
           | POk r => read_tt_children tr fr tm vl preserve lang l' true has_head h (r_node r)
           | PSkip => read_tt_children tr fr tm vl preserve lang l' true has_head h None
@@ -371,12 +371,9 @@ Fixpoint read_tt_children (tr : Z) (fr : Q) (tm : qname -> text -> option (Z * s
       else read_tt_children tr fr tm vl preserve lang l' has_body has_head h body
   end.
 
-(* reader.to_model on a <tt> root; DErr 2 when the frame rate multiplier has a zero denominator *)
+(* reader.to_model on a <tt> root *)
 Definition read_tt (tm : qname -> text -> option (Z * sv)) (vl : Z -> sv -> bool) (x : xml) : dres :=
   let attrs := x_attrs x in
   let preserve := read_space attrs false in
   let lang := match get_attr attrs A_lang with Some l => l | None => [] end in
-  match extract_frame_rate attrs with
-  | None => DErr 2
-  | Some fr => read_tt_children (extract_tick_rate attrs) fr tm vl preserve lang (x_children x) false false (mkH false false [] [] []) None
-  end.
+  read_tt_children (extract_tick_rate attrs) (extract_frame_rate attrs) tm vl preserve lang (x_children x) false false (mkH false false [] [] []) None.
